@@ -206,6 +206,7 @@ theorem apply0_started (w : World) (l : Label) (x : EId) (b : BId) (k : HId) (hx
   case take p b' e => cases p <;> simpa [apply0] using h
   case peRecTrip p b' e => cases p <;> simp [apply0, rlBack] <;> exact h
   case hStart => simpa [apply0] using h
+  case hCancel => simpa [apply0] using h
   case hEnd i out =>
     simp only [apply0]
     split <;> (try split) <;> (try split) <;> simpa using h
@@ -341,6 +342,7 @@ theorem apply0_inst_id (w : World) (l : Label) (j : IId) (hj : j < w.ni) (hg : g
     cases p <;> simp only [apply0, rlBack, modInst_eq, modBus_eq, setLock_inst, setBus_inst]
     exact idOf_setInst _ _ _ _ rfl
   case hStart i => simp only [apply0, modInst_eq]; exact idOf_setInst _ _ _ _ rfl
+  case hCancel i => simp only [apply0, modInst_eq]; exact idOf_setInst _ _ _ _ rfl
   case hEnd i out =>
     simp only [apply0]
     split <;> (try split) <;> (try split) <;> simp only [modInst_eq, setWaiter_inst] <;> exact idOf_setInst _ _ _ _ rfl
